@@ -614,7 +614,9 @@ impl<'a, 'b> G<'a, 'b> {
         let unusual = self.k.unusual;
         match self.c.weighted(&[5, 6, 3, if unusual { 1 } else { 0 }]) {
             0 => {
-                let v = self.c.choose(&["\"s\"", "\"a b\"", "\" x \"", "\"\"", "'q\"q'", "\"l1\n   l2\"", "\"&amp;\""]);
+                let v = self.c.choose(&[
+                    "\"s\"", "\"a b\"", "\" x \"", "\"\"", "'q\"q'", "\"l1\n   l2\"", "\"&amp;\"", "\"C:\\users\\x\"", "'\\1'", "\"end\\\"",
+                ]);
                 v.to_string()
             }
             1 => format!("{{{}}}", self.expr(depth + 1)),
@@ -712,7 +714,10 @@ impl<'a, 'b> G<'a, 'b> {
             }
             6 => {
                 self.f.unusual("directive-string");
-                "=\"str\"".into()
+                // JSX strings have entities and no escapes: backslashes must not reach the output raw
+                self.c
+                    .choose(&["=\"str\"", "=\"C:\\users\\x &amp; y\"", "='q\\1\"'", "=\"end\\\"", "=\"\\d+\\x\""])
+                    .into()
             }
             7 => {
                 self.f.unusual("directive-odd-array");
